@@ -2274,6 +2274,9 @@ def isinstance_(it, v, t):
         if isinstance(v, SV) and v.t.sort().eq(Cell):
             return z3.And(Cell.is_obj(v.t), OBJ_TYPE(Cell.id(v.t)) == z3.StringVal(t.name))
         return False
+    if isinstance(t, Opaque) and t.kind == 'extfn' and t.name in ('re.Pattern', 're._pattern_type', 'typing.Pattern'):
+        # the type of compiled patterns: only RegexV values are instances
+        return isinstance(v, RegexV)
     if not isinstance(t, TypeV):
         raise Unsupported('isinstance against %r' % (t,))
     n = t.name
